@@ -211,3 +211,42 @@ Proof.
   intros sep s H. unfold split_by. destruct sep; [congruence|].
   rewrite split_fuel_join; [reflexivity | discriminate | lia].
 Qed.
+
+(* ------------------------------------------------------------------ case mapping *)
+Lemma lead_width_ascii : forall a, Nat.ltb (nat_of_ascii a) 128 = true -> lead_width a = 1%nat.
+Proof.
+  intros a H. unfold lead_width. apply Nat.ltb_lt in H.
+  destruct (Nat.ltb (nat_of_ascii a) 192) eqn:E; [reflexivity|]. apply Nat.ltb_ge in E. lia.
+Qed.
+Lemma is_ascii_cons : forall a s, is_ascii_str (String a s) = true ->
+  Nat.ltb (nat_of_ascii a) 128 = true /\ is_ascii_str s = true.
+Proof. intros a s H. cbn in H. apply andb_true_iff in H. exact H. Qed.
+Lemma utf8_chars_ascii : forall s fuel, is_ascii_str s = true -> (String.length s <= fuel)%nat ->
+  utf8_chars_fuel fuel s = chars s.
+Proof.
+  induction s as [|a s IH]; intros fuel H L.
+  - destruct fuel; reflexivity.
+  - destruct fuel as [|f]; [cbn in L; lia|]. destruct (is_ascii_cons _ _ H) as [Ha Hs].
+    cbn [utf8_chars_fuel chars]. rewrite (lead_width_ascii a Ha). cbn [stake sdrop].
+    rewrite IH; [reflexivity | exact Hs | cbn in L; lia].
+Qed.
+(* on an ASCII receiver the table is irrelevant and the mapping is the byte-wise ASCII one *)
+Lemma case_map_ascii_l : forall f tbl s, is_ascii_str s = true -> case_map f tbl s = Some (smap f s).
+Proof.
+  intros f tbl s H. unfold case_map, utf8_chars. rewrite utf8_chars_ascii by (auto; lia).
+  induction s as [|a s IH]; [reflexivity|]. destruct (is_ascii_cons _ _ H) as [Ha Hs].
+  cbn [chars map concat_opt map_char smap]. rewrite Ha. rewrite (IH Hs). reflexivity.
+Qed.
+(* the computed mapping satisfies the character-wise statement *)
+Lemma case_map_chars_l : forall f tbl cs r,
+  concat_opt (map (map_char f tbl) cs) = Some r ->
+  exists ds, chars_mapped f tbl cs ds = true /\ r = String.concat "" ds.
+Proof.
+  induction cs as [|c cs IH]; intros r H; cbn in H.
+  - inversion H. exists []. split; reflexivity.
+  - destruct (map_char f tbl c) as [x|] eqn:E; [|discriminate].
+    destruct (concat_opt (map (map_char f tbl) cs)) as [y|] eqn:E2; [|discriminate].
+    inversion H; subst. destruct (IH y eq_refl) as [ds [A B]]. exists (x :: ds). split.
+    + cbn. rewrite E, String.eqb_refl. exact A.
+    + subst y. destruct ds; cbn; [rewrite sapp_nil_r|]; reflexivity.
+Qed.
